@@ -50,6 +50,7 @@ def analyse(ctx, replace=None, only=None):
         if not R.require(n in fns, "anchor function %s not found" % n):
             return
     caches(R, P, fns)
+    dispatchers(R, P, fns)
     table(R, P, fns)
 
 
@@ -197,6 +198,30 @@ def caches(R, P, fns):
                 "a path through move-to-end returns without moving the node (%s) although it need not be the back of the list: a lookup of that entry does not count as a use, so the wrong entry is evicted later" % bad)
 
 
+def dispatchers(R, P, fns):
+    """the public aws_cache_* entry points are pure dispatchers: every call reaches the cache's own vtable slot exactly once
+    with the caller's arguments (a shortcut in front of the slot changes every policy at once)"""
+    n = 0
+    for op in ("find", "put", "remove", "clear", "get_element_count", "destroy"):
+        f = fns.get("aws_cache_" + op)
+        if f is None:
+            continue
+        n += 1
+        ic = [e for e in f.indirect_calls() if RU.indirect_via(f, e.node) == ("aws_cache_vtable", op)]
+        ok = len(ic) == 1
+        det = "%d call(s) through vtable->%s" % (len(ic), op)
+        if ok:
+            ts = Typestate(f, 0, lambda e, s, ic=ic: min(s + 1, 2) if e is ic[0] else s)
+            args = [f.show(a) for a in ic[0].node["a"]]
+            params = [p["n"] for p in f.params]
+            others = [e.node.get("callee") for e in f.all_events() if e.kind == "call" and e is not ic[0] and not (e.node.get("callee") or "").startswith(("aws_fatal_assert", "__builtin", "aws_raise_error"))]
+            ok = ts.exit_states == {1} and args == params and not others
+            det = "exit states %s, arguments %s, other calls %s" % (sorted(ts.exit_states), args, others)
+        R.check(ok, "POLICY", "aws_cache_%s:dispatches-unconditionally" % op, "%s()" % f.name, "reaches vtable->%s exactly once on every path with the caller's arguments" % op,
+                "aws_cache_%s does not simply dispatch to the cache's %s implementation (%s): a path that answers without it skips the policy's insertion / reordering / eviction" % (op, op, det))
+    R.require(n >= 5, "aws_cache_* dispatchers not found in source/cache.c")
+
+
 def table(R, P, fns):
     f = fns["aws_linked_hash_table_put"]
     dom = dominators(f)
@@ -266,6 +291,10 @@ def table(R, P, fns):
     R.check(ok, "DESTROY", "value-destructor-unlink-release", "%s()" % d.name, "user value destructor, unlink, release - in that order", "the element destructor's steps are missing or out of order")
     if uv:
         R.check(d.show(RU.arg(d, uv[0].node, 0)) == "node->value", "DESTROY", "destroys-users-value", where(d, uv[0]), "the user's value is what is destroyed")
+        gsd = [d.show(c_) for c_, p_, b_ in RU.guards(d, uv[0], dom)]
+        extra = [g_ for g_ in gsd if "user_on_value_destroy" not in g_ or "->value" in g_]
+        R.check(not extra, "DESTROY", "value-destructor-depends-only-on-being-set", where(d, uv[0]), "the user's value destructor runs for every removed entry when one was given (guards: %s)" % gsd,
+                "the user's value destructor is skipped under a further condition (%s): an entry whose value is NULL / fails that test leaves the cache without the destructor the caller registered being told" % extra)
     if rel:
         later = RU.dead_after(d, rel[0], "node")
         R.check(not later and argstr(d, rel[0].node, 1, addr=False) in ("node", "value"), "DESTROY", "node-dead-after-release", where(d, rel[0]), "node not used after release")
@@ -291,6 +320,8 @@ def table(R, P, fns):
 
 
 MUTANTS = [
+    {"name": "put-shortcut-before-dispatch", "file": "source/cache.c", "expect": "POLICY", "old": "    return cache->vtable->put(cache, key, p_value);", "new": "    void *cur = NULL;\n    if (cache->vtable->find(cache, key, &cur) == AWS_OP_SUCCESS && cur == p_value) {\n        return AWS_OP_SUCCESS;\n    }\n    return cache->vtable->put(cache, key, p_value);"},
+    {"name": "value-destructor-skipped-for-null", "file": LHT, "expect": "DESTROY", "old": "    if (node->table->user_on_value_destroy) {", "new": "    if (node->table->user_on_value_destroy && node->value) {"},
     {"name": "fifo-evicts-back", "file": "source/fifo_cache.c", "expect": "VICTIM", "old": "aws_linked_list_front(list);", "new": "aws_linked_list_back(list);"},
     {"name": "lifo-evicts-newest", "file": "source/lifo_cache.c", "expect": "VICTIM", "old": "AWS_CONTAINER_OF(node->prev, struct aws_linked_hash_table_node, node);", "new": "AWS_CONTAINER_OF(node, struct aws_linked_hash_table_node, node);"},
     {"name": "lru-overflow-ge", "file": "source/lru_cache.c", "expect": "EVICT",
